@@ -119,9 +119,10 @@ pub struct SimCtx {
     /// set by the watchdog when it gives up on this process: the runaway thread is parked at
     /// its next sandbox call instead of consuming memory and CPU for the rest of the run
     pub abandoned: Arc<std::sync::atomic::AtomicBool>,
-    /// file timestamps come from a simulated clock that stands still: every file of the
-    /// sandbox shows the same modification time, whenever it was written
-    pub frozen_clock: bool,
+    /// file timestamps come from a simulated clock: 0 = the file system's own, 1 = stands still,
+    /// 2 = runs backwards, 3 = skewed per file (see `freeze_times`)
+    pub clock_mode: u8,
+    pub clock_seed: u64,
     /// start-order seam for threads this process creates (see `ThreadGroup`)
     pub threads: Option<Arc<ThreadGroup>>,
     in_shim: bool,
@@ -142,7 +143,8 @@ impl SimCtx {
             fds: Vec::new(),
             dirs: Vec::new(),
             abandoned: Arc::new(std::sync::atomic::AtomicBool::new(false)),
-            frozen_clock: false,
+            clock_mode: 0,
+            clock_seed: 0,
             threads: None,
             log: Vec::new(),
             fired: Vec::new(),
@@ -836,8 +838,8 @@ pub unsafe extern "C" fn statx(
     if !in_sandbox(c, bytes) {
         // fstat-like statx(fd, "", AT_EMPTY_PATH) on sandbox fds: only the clock is simulated
         let r = unsafe { libc::syscall(libc::SYS_statx, dirfd, path, flags, mask, buf) as c_int };
-        if r == 0 && c.frozen_clock && bytes.is_empty() && fd_index(c, dirfd).is_some() {
-            unsafe { freeze_times(buf) };
+        if r == 0 && c.clock_mode != 0 && bytes.is_empty() && fd_index(c, dirfd).is_some() {
+            unsafe { freeze_times(buf, c.clock_mode, c.clock_seed) };
         }
         return r;
     }
@@ -872,8 +874,8 @@ pub unsafe extern "C" fn statx(
         Pre::Go(_) => {
             let r = unsafe { libc::syscall(libc::SYS_statx, dirfd, path, flags, mask, buf) as c_int };
             let res = if r < 0 { -(get_errno() as i64) } else { 0 };
-            if r == 0 && c.frozen_clock {
-                unsafe { freeze_times(buf) };
+            if r == 0 && c.clock_mode != 0 {
+                unsafe { freeze_times(buf, c.clock_mode, c.clock_seed) };
             }
             log(c, Call::Stat, np, 0, res, None);
             r
@@ -881,12 +883,35 @@ pub unsafe extern "C" fn statx(
     }
 }
 
-/// The simulated clock stands still at one instant.
-unsafe fn freeze_times(buf: *mut libc::statx) {
+/// The simulated file-system clock. Mode 1: it stands still at one instant (every file shows
+/// the same time, whenever it was written). Mode 2: it runs backwards (a file written later
+/// shows an older time: restored backups, `cp -p`, a clock set back). Mode 3: skewed per file
+/// (times are a pseudo-random function of the real time stamp and the process's seed: no
+/// relation between write order and time order).
+unsafe fn freeze_times(buf: *mut libc::statx, mode: u8, seed: u64) {
+    const T0: i64 = 1_700_000_000;
     unsafe {
         for t in [&mut (*buf).stx_atime, &mut (*buf).stx_btime, &mut (*buf).stx_ctime, &mut (*buf).stx_mtime] {
-            t.tv_sec = 1_700_000_000;
-            t.tv_nsec = 0;
+            match mode {
+                1 => {
+                    t.tv_sec = T0;
+                    t.tv_nsec = 0;
+                }
+                2 => {
+                    // reflect around T0 + 2^31: later becomes earlier, distances are kept
+                    let nanos = t.tv_sec as i128 * 1_000_000_000 + t.tv_nsec as i128;
+                    let pivot = (T0 as i128 + (1i128 << 31)) * 1_000_000_000;
+                    let r = (2 * pivot - nanos).max(0);
+                    t.tv_sec = (r / 1_000_000_000) as i64;
+                    t.tv_nsec = (r % 1_000_000_000) as u32;
+                }
+                3 => {
+                    let mut h = crate::prng::Prng::new(seed ^ (t.tv_sec as u64).wrapping_mul(0x9e37_79b9_7f4a_7c15) ^ (t.tv_nsec as u64));
+                    t.tv_sec = T0 + (h.next_u64() % 100_000_000) as i64;
+                    t.tv_nsec = (h.next_u64() % 1_000_000_000) as u32;
+                }
+                _ => {}
+            }
         }
     }
 }
